@@ -360,6 +360,25 @@ func (sc *c13Scenario) Run(s *simrt.Sim) {
 	lt := s.Go("last-asker", func() {
 		lop = h.Do("last-asker", "AskOnceWithTimeout", lr.msg, func() (interface{}, error) { return lask.AskOnceWithTimeout(actor, 10*time.Minute) })
 	})
+	// ... while two more askers are in the hand-over or right behind: each of them comes back, with the answer or
+	// (the mailbox having been closed under them) with the timeout - nobody hangs
+	var others []*simrt.Thread
+	for k := 0; k < 2; k++ {
+		msg++
+		or := &c13Req{msg: msg, spec: c13Ask{Via: "AskOnceWithTimeout", Policy: "now", Timeout: time.Minute}}
+		byMsg[msg] = or
+		name := fmt.Sprintf("asker-beside-the-last-%d", k)
+		oask := fpgo.AskNewGenerics[int, int](or.msg)
+		others = append(others, s.Go(name, func() {
+			op := h.Do(name, "AskOnceWithTimeout", or.msg, func() (interface{}, error) { return oask.AskOnceWithTimeout(actor, time.Minute) })
+			if op.Panic == "" && op.Err == nil && op.Val != c13f(or.msg) {
+				sc.extra = append(sc.extra, Violation{Clause: "correlation", Fingerprint: "asker-beside-a-closing-actor-wrong-answer", Detail: op.String()})
+			}
+		}))
+	}
+	if !s.WaitUntilTimeout(allDone(others), 30*time.Minute) {
+		sc.extra = append(sc.extra, Violation{Clause: "hang", Fingerprint: "askers-beside-a-closing-actor-never-return", Detail: "askers that were sending to an actor while it answered another request and closed itself never returned: " + pendingOps(h)})
+	}
 	if !s.WaitUntilTimeout(lt.Done, 30*time.Minute) {
 		sc.extra = append(sc.extra, Violation{Clause: "hang", Fingerprint: "ask-answered-by-a-closing-actor-never-returns", Detail: "AskOnceWithTimeout to an actor that replies and then closes itself never returned"})
 	} else if lop != nil && lop.Panic == "" && (lop.Err != nil || lop.Val != c13f(lr.msg)) {
